@@ -144,6 +144,15 @@ fn answer(a: &[&str]) -> String {
             let e: DataElement<InMemDicomObject> = DataElement::new(Tag(0x0009, 0x1001), vr, PrimitiveValue::Empty);
             serde_json::to_string(&dicom_json::DicomJson::from(&e)).unwrap_or_else(|_| "ERR".into())
         }
+        // frag_new <len> <fragment_size> -> "<fragments> <total bytes>"
+        "frag_new" => {
+            use dicom_core::value::fragments::Fragments;
+            let l: usize = a[1].parse().unwrap();
+            let fs: u32 = a[2].parse().unwrap();
+            let f = Fragments::new(vec![7u8; l], fs);
+            let seq: dicom_core::value::PixelFragmentSequence<Vec<u8>> = vec![f].into();
+            format!("{} {}", seq.fragments().len(), seq.fragments().iter().map(|x| x.len()).sum::<usize>())
+        }
         // ts_dump -> one line per registered transfer syntax
         "ts_dump" => {
             use dicom_encoding::transfer_syntax::TransferSyntaxIndex;
